@@ -39,7 +39,10 @@ RULE = ('quick: every pair of operand shapes (scalar or h×w, 1≤h,w≤4: 17² 
         'functions checked by the implementation-only oracle); fit_to_range for every result shape × target shape; real '
         'workbooks with an openpyxl ArrayFormula over every target shape ≤4×4 for every result shape (17×16, value '
         'formulas), plus operator / function formulas on sampled operand shapes, evaluating the target range and every '
-        'member cell; operands of magnitude around 2^31/2^53/2^63/2^64 with int/float typing mixed (exact against the '
+        'member cell; `^` on every compatible shape pair with operands reaching every outcome class of the scalar '
+        'kernel (number, #DIV/0!, overflow and complex -> #NUM!, #VALUE!, error passthrough; float results compared '
+        'with rel. 1e-12 against the model, exactly against the scalar application), postfix % and unary minus on '
+        'every shape; operands of magnitude around 2^31/2^53/2^63/2^64 with int/float typing mixed (exact against the '
         'scalar application); arrays mixing a value with its typed twins (7/"7"/7.0, 1/TRUE/"1", 0/FALSE/blank/""/"0") '
         'under type-sensitive functions and operators; workbooks whose operands are reached through chains of 0..3 '
         'uncomputed formula cells (also after set_value on the deepest input, also through a nested identity array '
@@ -59,14 +62,15 @@ TRUSTED = ['modelled, not verified: numpy.broadcast on object arrays, openpyxl A
 REQUIRED_BUCKETS = ['op:scalar-scalar', 'op:scalar-array', 'op:same-shape', 'op:single-row', 'op:single-col',
                     'op:row-col', 'op:incompatible', 'fn:scalars', 'fn:array+scalar', 'fn:equal-shapes',
                     'fn:unequal-shapes', 'fn:oracle-only', 'fit', 'wb:val', 'wb:op', 'wb:fn', 'wb:1x1',
-                    'op:big', 'op:twins', 'fn:twins', 'wb:chain0', 'wb:chain1', 'wb:chain2', 'wb:chain3',
+                    'op:big', 'op:twins', 'op:pow', 'fn:twins', 'wb:chain0', 'wb:chain1', 'wb:chain2', 'wb:chain3',
                     'wb:chain2:set_value', 'wb:chain3:set_value']
 EXHAUSTIVE = False
 EXPLANATION = ('Shapes are enumerated exhaustively up to 4×4 (operands, results and targets); element values are '
                'sampled. The Lean theorems hold for all shapes and every scalar operation.')
 
 OPS = {'Add': '+', 'Sub': '-', 'Mult': '*', 'Div': '/', 'BitAnd': '&', 'Eq': '=', 'NotEq': '<>', 'Lt': '<',
-       'LtE': '<=', 'Gt': '>', 'GtE': '>=', 'USub': '-'}
+       'LtE': '<=', 'Gt': '>', 'GtE': '>=', 'USub': '-', 'Pow': '^', 'Pct': '%'}
+# `x%` is compiled to `x / 100`: the model line is `op Div x 100`
 # modelled functions (Drv/C13.lean scalarFn): name -> (Excel name, arity)
 FNS = {'mod': ('MOD', 2), 'if_': ('IF', 3), 'isnumber': ('ISNUMBER', 1), 'sign': ('SIGN', 1), 'abs_': ('ABS', 1),
        'exact': ('EXACT', 2)}
@@ -92,6 +96,11 @@ TWINS = ['n:7/1', 's:55', 'n:1/1', 'b:1', 's:49', 'n:0/1', 'b:0', 'z', 's:', 's:
          'nf:7/1', 's:78,111,110,101']          # … "7", "1", "0", "", "2.5", 7.0, "None"
 TWINS_WB = [t for t in TWINS if t not in ('s:',)]
 NOBLANK = [t for t in POOL if t != 'z']
+# operands of `^` reaching every outcome class of the scalar kernel (C10): a number, ZeroDivisionError -> #DIV/0!,
+# OverflowError -> #NUM!, complex -> #NUM!, non-number -> #VALUE!, error operand passed through
+POW_BASE = ['n:-8/1', 'n:-1/1', 'n:0/1', 'n:2/1', 'n:4/1', 'n:21/2', 'n:1/4', 'n:7/1', 'nf:-8/1', 's:97', 'z',
+            'e:div0', 'b:1', 'n:-1/4']
+POW_EXP = ['n:1/2', 'n:-1/1', 'n:2/1', 'n:3/1', 'n:400/1', 'n:-1/2', 'n:0/1', 's:97', 'z', 'e:na', 'n:1/3', 'nf:2/1']
 SHAPES = [None] + [(h, w) for h in range(1, 5) for w in range(1, 5)]      # None = scalar
 ANCHORS = ['A', 'F', 'K']            # top-left columns of the operand blocks (rows 1..4)
 TARGET_ROW, TARGET_COL = 3, 16       # P3
@@ -203,7 +212,8 @@ def formula_of(form, mode='range'):
     if t == 'val':
         opnds = [form['res']]
     elif t == 'op':
-        opnds = [form['L'], form['R']] if form['op'] != 'USub' else [form['R']]
+        opnds = [form['R']] if form['op'] == 'USub' else [form['L']] if form['op'] == 'Pct' else \
+            [form['L'], form['R']]
     else:
         opnds = form['args']
     cells, ranges, refs = {}, {}, []
@@ -223,7 +233,8 @@ def formula_of(form, mode='range'):
     if t == 'val':
         f = '=' + refs[0]
     elif t == 'op':
-        f = ('=-' + refs[0]) if form['op'] == 'USub' else f'={refs[0]}{OPS[form["op"]]}{refs[1]}'
+        f = ('=-' + refs[0]) if form['op'] == 'USub' else f'={refs[0]}%' if form['op'] == 'Pct' else \
+            f'={refs[0]}{OPS[form["op"]]}{refs[1]}'
     else:
         name = (FNS.get(form['fn']) or ORACLE_FNS[form['fn']])[0]
         f = f'={name}({",".join(refs)})'
@@ -256,7 +267,7 @@ def bshape(sa, sb):
 def cases(tier, rng):
     thorough = tier == 'thorough'
     reps = 4 if thorough else 1
-    binops = [o for o in OPS if o != 'USub']
+    binops = [o for o in OPS if o not in ('USub', 'Pct', 'Pow')]     # `^` has its own operand pools below
     # --- operators: every shape pair x every operator
     for rep in range(reps):
         for sa, sb in itertools.product(SHAPES, SHAPES):
@@ -273,6 +284,29 @@ def cases(tier, rng):
                 yield {'k': 'op', 'op': rng.choice(binops), 'L': L, 'R': R, 'mode': 'const'}
         for sb in SHAPES:
             yield {'k': 'op', 'op': 'USub', 'L': 'z', 'R': draw(rng, sb), 'mode': 'range'}
+            yield {'k': 'op', 'op': 'Pct', 'L': draw(rng, sb), 'R': 'n:100/1', 'mode': 'range'}
+        # `^`: every compatible shape pair, operands reaching every outcome class of the scalar kernel
+        for sa, sb in itertools.product(SHAPES, SHAPES):
+            if bshape(sa, sb) is not None:
+                for _ in range(2):
+                    yield {'k': 'op', 'op': 'Pow', 'L': draw(rng, sa, POW_BASE), 'R': draw(rng, sb, POW_EXP),
+                           'mode': 'range', 'pool': 'pow'}
+        # each outcome class next to each other in one array, for `^`, `/`, unary minus and `%`
+        yield {'k': 'op', 'op': 'Pow', 'L': [['n:-8/1', 'n:0/1', 'n:21/2', 'n:4/1', 's:97', 'e:div0', 'z']],
+               'R': [['n:1/2', 'n:-1/1', 'n:400/1', 'n:1/2', 'n:2/1', 'n:2/1', 'n:-1/2']], 'mode': 'range', 'pool': 'pow'}
+        yield {'k': 'op', 'op': 'Pow', 'L': [['n:-8/1', 'n:4/1', 'n:-1/4']], 'R': 'n:1/2', 'mode': 'range', 'pool': 'pow'}
+        yield {'k': 'op', 'op': 'Pow', 'L': 'n:-8/1', 'R': [['n:1/2'], ['n:2/1'], ['n:1/3']], 'mode': 'range',
+               'pool': 'pow'}
+        yield {'k': 'op', 'op': 'Pow', 'L': [['n:-8/1', 'n:4/1']], 'R': [['n:1/2', 'n:1/2']], 'mode': 'const',
+               'pool': 'pow'}
+        yield {'k': 'op', 'op': 'Div', 'L': [['n:1/1', 'n:0/1', 's:97', 'e:na', 'z', 'b:1']],
+               'R': [['n:0/1', 'n:0/1', 'n:2/1', 'n:0/1', 'z', 'n:4/1']], 'mode': 'range'}
+        yield {'k': 'op', 'op': 'USub', 'L': 'z', 'R': [['n:1/2', 's:97', 'e:na', 'z', 'b:1', 's:55']], 'mode': 'range'}
+        yield {'k': 'op', 'op': 'Pct', 'L': [['n:7/1', 's:97', 'e:na', 'z', 'b:1', 's:55']], 'R': 'n:100/1',
+               'mode': 'range'}
+        for (h, w) in [(1, 3), (2, 2), (3, 1), (4, 4), (2, 3)]:
+            yield {'k': 'wb', 'h': h, 'w': w, 'form': {'t': 'op', 'op': 'Pow', 'L': draw(rng, (1, 3), POW_BASE),
+                                                       'R': draw(rng, rng.choice([None, (1, 3)]), POW_EXP)}}
     # scalar error operands against arrays holding errors (the order of the error checks matters)
     for e in ('e:na', 'e:div0'):
         for arr in ([['e:div0', 'n:1/1']], [['n:1/1'], ['e:na']], [['n:1/1', 'n:2/1'], ['n:3/1', 'e:value']]):
@@ -521,6 +555,8 @@ def impl(c):
 
 def form_line(form):
     if form['t'] == 'op':
+        if form['op'] == 'Pct':
+            return f"op Div {proto(form['L'])} n:100/1"
         return f"op {form['op']} {proto(form['L'])} {proto(form['R'])}"
     if form['t'] == 'fn':
         return f"fn {form['fn']} " + ' '.join(proto(a) for a in form['args'])
@@ -543,7 +579,12 @@ def model_lines(c):
 def same(impl_out, model_out):
     if model_out == '!unmodelled':          # oracle-only functions
         return True
-    return impl_out == model_out
+    if '~' not in model_out:
+        return impl_out == model_out
+    # `~n:p/q`: a float result of `^` that C10's kernel model only approximates (C pow is not correctly rounded)
+    a, b = impl_out.split(' '), model_out.split(' ')
+    return len(a) == len(b) and all(
+        x == y or (y.startswith('~') and (x == y[1:] or core.num_close(x, y[1:]))) for x, y in zip(a, b))
 
 
 # ---------------------------------------------------------------------------------------------------------------
